@@ -7,6 +7,6 @@ CONSTANTS
   ActiveTxs = {"t1", "t2", "t3", "p1", "p2", "p3"}
   KF_FrozenLedgerHeight = FALSE
   KF_PoolMasksBlockOrder = FALSE
-INVARIANTS TypeOK PureFn Conservation NoDoubleSpend PoolValid
+INVARIANTS TypeOK PureFn Conservation NoDoubleSpend PoolValid SnapshotOK
 VIEW View
 CHECK_DEADLOCK FALSE
